@@ -100,7 +100,7 @@ def check_validated(case):
             lx = 0
         elif s.id == 'LX' and is837:
             lx += 1
-            if (s.elems[0][0] if s.elems else '') != str(lx):
+            if envmodel.toint(s.elems[0][0] if s.elems else '') != lx:
                 want.append((isa, gidx, st, pos))
     got = sorted((e['isa'], e['gs'], e['st'], e['pos']) for e in o.errors if e['level'] == 'seg' and e['code'] == 'LX')
     env = [(e['level'], e['code']) for e in o.errors if e['level'] in ('isa', 'gs', 'st') and e['seg_id'] in (None, 'ISA', 'GS', 'ST', 'SE', 'GE', 'IEA')
@@ -280,7 +280,10 @@ def strategies(tier):
                     continue     # in an 837 a service line always belongs to a claim of the same set
                 lxn += 1
                 v = str(lxn)
-                if lx and draw(st.integers(0, 7)) == 0:
+                if draw(st.integers(0, 7)) == 0:
+                    v = '0' * draw(st.integers(1, 2)) + v      # the same number, spelled with leading zeros
+                    pert.add('LX-leading-zero')
+                elif lx and draw(st.integers(0, 7)) == 0:
                     v = draw(st.sampled_from([str(lxn + 1), '0', 'X', '']))
                     pert.add('LX-off')
                 segs.append(['LX', v])
